@@ -4,6 +4,15 @@
 // the function is LOOP-FREE, the stubs are heap-free and every stub outcome is symbolic, so the harness is a complete
 // exploration of the function over its stub contracts (no unwinding bound is involved).
 #![allow(dead_code, unused_variables, unused_macros, static_mut_refs, unused_imports, unused_mut)]
+// `tracing::level!(..)` written with its path by an edit keeps compiling (log statements have no effect on the checks)
+pub mod tracing {
+    macro_rules! trace { ($($t:tt)*) => { () } }
+    macro_rules! debug { ($($t:tt)*) => { () } }
+    macro_rules! info { ($($t:tt)*) => { () } }
+    macro_rules! warn_ { ($($t:tt)*) => { () } }
+    macro_rules! error { ($($t:tt)*) => { () } }
+    pub(crate) use {trace, debug, info, warn_ as warn, error};
+}
 
 macro_rules! debug { ($($t:tt)*) => { () } }
 macro_rules! info { ($($t:tt)*) => { () } }
